@@ -399,6 +399,36 @@ func main() {
 				reset()
 			})
 		}
+		// long texts: two texts that agree on their first L-1 bytes and differ (or turn invalid) only in byte L, for every L
+		for _, ml := range []int{1024, 0} {
+			ml := ml
+			r.Phase(fmt.Sprintf("string helpers with sem.MaxInputLength=%d: texts of every length L in 10..260 that differ from each other only in their last byte (a, b, 1, an invalid byte; tag and version form; pre-release, build and patch tail), all ordered pairs per L", ml), "complete over the text set", func() {
+				sem.MaxInputLength = ml
+				curLimit = ml
+				r.Parallel(251, 1, func(w *mc.W, i int64) {
+					l := int(i) + 10
+					var ts []string
+					for _, head := range []string{"v1.0.0-", "1.0.0-", "1.0.0-1+", "v2.3."} {
+						fill := "a"
+						lasts := []string{"a", "b", "1", "!"}
+						if strings.HasSuffix(head, ".") {
+							fill, lasts = "1", []string{"1", "2", "0", "x"}
+						}
+						for _, last := range lasts {
+							ts = append(ts, head+strings.Repeat(fill, l-len(head)-1)+last)
+						}
+					}
+					for _, a := range ts {
+						for _, b := range ts {
+							w.Point()
+							w.NonTrivial()
+							pH.Do(w, helperArg{A: mc.Bin(a), B: mc.Bin(b), Limit: &ml})
+						}
+					}
+				})
+				reset()
+			})
+		}
 		for custom := 1; custom <= 2; custom++ {
 			custom := custom
 			r.Phase(fmt.Sprintf("string helpers with a user-installed sem.ComparePreRelease (#%d): every helper must still return what comparing the parsed values returns", custom), "complete over the text set", func() {
